@@ -360,7 +360,13 @@ def _check_window(ctx) -> None:
                   "generated: " + "; ".join(w2_bad), key_detail="window-end")
         # ---- forwarding of the window to nested window generators
         for c in _window_call_sites(g, set(by_name)):
-            callee = by_name[last_attr(c)][0]
+            cands = by_name[last_attr(c)]
+            if isinstance(c.func, ast.Name):  # a plain call: the module-level function of this module, if any
+                cands = [k for k in cands if k.cls is None and k.module is g.module] or \
+                        [k for k in cands if k.cls is None] or cands
+            else:
+                cands = [k for k in cands if k.cls is not None] or cands
+            callee = cands[0]
             b = _bind_window(c, callee)
             if "first_slice" not in b and "last_slice" not in b:
                 ctx.info(rule, f"{g.qualname}:call {norm_text(c)[:50]}", g.loc(c),
@@ -738,3 +744,43 @@ def run(ctx) -> None:  # noqa: F811
              "validate_chunks(shape, ..) has one entry per axis of shape).  The eager arm allocates ensemble_shape + "
              "(window,) + base_shape[1:]; a lazy array of another rank is not the same array")
     deferred.run(ctx, lambda: _check_newaxis(ctx), _inner_run_c10d)
+
+
+# ---- added after the seeded change C10-r4seed2: every per-slice quantity of a yielded slice is read at the same
+# ---- absolute slice position
+_inner_run_c10e = run
+
+SAMEINDEX_TEXT = ("for every generator of slices of the potential classes (Potential, PotentialArray, CrystalPotential): "
+                  "the per-slice quantities handed to the object yielded in one pass of the loop — the plane(s) of the "
+                  "stored array, the thickness passed to the constructor, the exit-plane flags stored on it, a depth from a "
+                  "cumulated table, a buffer filled slot by slot — are direct reads of per-slice tables, and all of them "
+                  "are read at the same absolute slice position: offset of the table (0 for an attribute, a for a local "
+                  "bound to T[a:b], followed through single reaching definitions) plus the index, evaluated to a "
+                  "polynomial in the pass number of the loop (range(a, b) gives a + k, enumerate gives k, "
+                  "itertools.islice(X, a, b) element a + k, generate_chunks(.., start=s) the run [s + S, s + S + n), running "
+                  "counters e0 + d*k), first_slice and the other names.  Two reads whose positions differ belong to "
+                  "different slices for some window or pass: the yielded slice then carries the thickness / flags / data "
+                  "of another slice than the one of the full sequence it stands for.  Runs must also have the same "
+                  "length (x[i] is the run [i, i + 1))")
+
+
+def _check_sameindex(ctx) -> None:
+    from ..rules import sameindex
+
+    rule = "R-SAMEINDEX"
+    gens = [g for g in _window_generators(ctx.repo) if g.module.name == IAM]
+    ctx.require(len(gens) >= 3, f"{rule}: only {len(gens)} window generators in {IAM}")
+    n = 0
+    for g in gens:
+        n += sameindex.check(ctx, rule, g)
+    ctx.require(n >= 9, f"{rule} compared only {n} per-slice reads (expected >= 9)")
+
+
+def run(ctx) -> None:  # noqa: F811
+    from ..rules import deferred
+
+    ctx.rule("R-SAMEINDEX", SAMEINDEX_TEXT)
+    ctx.undecided("per-slice quantities that are computed from several table elements (stencils, differences of slice "
+                  "limits) and definitions of a slice buffer under guards the analysis does not evaluate are not compared "
+                  "by R-SAMEINDEX")
+    deferred.run(ctx, lambda: _check_sameindex(ctx), _inner_run_c10e)
